@@ -723,8 +723,9 @@ pub fn run_case(c: &ReqCase, fam: &str, out: &mut CaseOut) -> String {
         }
     };
     // expected: sources in the order given, then references in the order given
-    let exp_sources: Vec<Node> = c.files.iter().filter(|f| f.1).map(|(n, _, fi)| expected_file(&c.program, &table, *fi, n)).collect();
-    let exp_refs: Vec<Node> = c.files.iter().filter(|f| !f.1).map(|(n, _, fi)| expected_file(&c.program, &table, *fi, n)).collect();
+    // (a file without a module declaration has no representation in the schema: it is left out)
+    let exp_sources: Vec<Node> = c.files.iter().filter(|f| f.1 && c.program[f.2].module.is_some()).map(|(n, _, fi)| expected_file(&c.program, &table, *fi, n)).collect();
+    let exp_refs: Vec<Node> = c.files.iter().filter(|f| !f.1 && c.program[f.2].module.is_some()).map(|(n, _, fi)| expected_file(&c.program, &table, *fi, n)).collect();
     for (what, exp, got) in [("sources", &exp_sources, &sources), ("references", &exp_refs, &references)] {
         let ep: Vec<&str> = exp.iter().map(|f| f.get("path").unwrap()).collect();
         let gp: Vec<&str> = got.iter().map(|f| f.get("path").unwrap_or("?")).collect();
@@ -841,10 +842,10 @@ impl ReqFamily for PairsFam {
 pub struct Packed;
 impl ReqFamily for Packed {
     fn name(&self) -> String {
-        "packed-and-three-files/all 40 constructs in one file x 4 scopes x 4 splits; 3 files x 7 source/reference assignments x 6 orders".into()
+        "packed-and-three-files/all 40 constructs in one file x 4 scopes x 4 splits; 3 files x 7 source/reference assignments x 6 orders; a module-less file (left out of the request) at each of 4 positions among them x source/reference x 2 assignments".into()
     }
     fn len(&self) -> u64 {
-        16 + 42
+        16 + 42 + 16
     }
     fn get(&self, idx: u64) -> ReqCase {
         if idx < 16 {
@@ -853,6 +854,21 @@ impl ReqFamily for Packed {
             let s = (idx / 4) as usize;
             let names = ["main.slice", "lib.slice"];
             return ReqCase { files: splits2()[s].iter().map(|(fi, src)| (names[*fi].to_string(), *src, *fi)).collect(), program, args: vec![], label: format!("all constructs, variant {}, split {s}", idx % 4) };
+        }
+        if idx >= 58 {
+            // a file without a module (it holds a file attribute and a comment) cannot be represented in the request
+            // and is left out; every other file must still be transmitted, in its list and in order
+            let j = idx - 58;
+            let (pos, bare_is_source, assign) = ((j % 4) as usize, (j / 4) % 2 == 1, if j / 8 == 0 { 0b101u64 } else { 0b011 });
+            let mut program = gen::sequence_program(&[6, 12, 27], 0);
+            let mut third = MFile::module("Third");
+            third.defs.push(st("T", vec![MField::new("a", MType::named("Lib::HS"))]));
+            program.push(third);
+            program.push(MFile { file_attrs: vec![MAttr::with("cs::bare", vec![MArg::Ident("x".into())])], module: None, defs: vec![], pre: vec![] });
+            let names = ["main.slice", "lib.slice", "third.slice", "bare.slice"];
+            let mut files: Vec<(String, bool, usize)> = (0..3usize).map(|fi| (names[fi].to_string(), (assign >> fi) & 1 == 1, fi)).collect();
+            files.insert(pos, (names[3].to_string(), bare_is_source, 3));
+            return ReqCase { files, program, args: vec![], label: format!("module-less file at position {pos} as {}, sources mask {assign:#b}", if bare_is_source { "source" } else { "reference" }) };
         }
         let i = idx - 16;
         let order = [[0usize, 1, 2], [0, 2, 1], [1, 0, 2], [1, 2, 0], [2, 0, 1], [2, 1, 0]][(i % 6) as usize];
